@@ -104,7 +104,7 @@ def _call_type(ip, t, args, kw):
         return tuple(ip.iterate(args[0])) if args else ()
     if n == "list":
         if args and isinstance(args[0], SeqV):
-            return args[0]
+            return SeqV(args[0].length, args[0].get, "list", args[0].name)
         return list(ip.iterate(args[0])) if args else []
     if n == "dict":
         d = {}
@@ -452,7 +452,10 @@ def _zip(ip, args, kw):
         ln = seqs[0].length
         for s_ in seqs[1:]:
             ln = z3.If(s_.length < ln, s_.length, ln)
-        return SeqV(z3.simplify(ln), lambda j: tuple(s_.get(j) for s_ in seqs), "list")
+        gets = [s_.get for s_ in seqs]  # captured now: a later `x[:] = ...` on an argument must not show through
+        return SeqV(z3.simplify(ln), lambda j: tuple(g(j) for g in gets), "list")
+    if len(args) == 1 and isinstance(args[0], I.StarSeq):
+        return _transpose(ip, args[0].seq)
     lists = [ip.iterate(a) for a in args]
     return [tuple(t) for t in zip(*lists)]
 
@@ -512,10 +515,65 @@ def _sorted(ip, args, kw):
     xs = args[0]
     key = kw.get("key")
     rev = kw.get("reverse", False)
-    if isinstance(xs, SeqV):
-        raise EngineError("sorted() of a symbolic-length sequence")
+    if isinstance(xs, SeqV) and not z3.is_int_value(z3.simplify(xs.length)):
+        return seq_sorted(ip, xs, key, rev)
     items = ip.iterate(xs)
     return sym_sorted(ip, items, key, rev)
+
+
+def _transpose(ip, seq):
+    """zip(*rows) for a symbolic-length sequence of k-tuples: k columns of the same length.
+    Python yields nothing for zero rows; that case is split off."""
+    if not ip.branch(mk(seq.length > 0, "bool")):
+        return []
+    probe = seq.get(z3.Int(fresh_name("row")))
+    if not isinstance(probe, tuple):
+        raise EngineError("zip(*rows): rows of a symbolic-length sequence must be tuples")
+    get = seq.get
+    return [SeqV(seq.length, (lambda j, c=c: get(j)[c]), "tuple") for c in range(len(probe))]
+
+
+def seq_sorted(ip, xs, key, rev=False):
+    """sorted() of a sequence of unknown length.  ASSUMED semantics of the builtin (the only
+    axiom): the result is the input rearranged by a bijection of [0, n) and its keys are
+    non-decreasing, equal keys keeping their source order.  The bijection is logged as a
+    ghost (`calls["builtins.sorted"][k].perm / .inv`) so that postconditions can name it."""
+    if rev:
+        raise EngineError("reverse sort of a symbolic-length sequence")
+    n = xs.length
+    get = xs.get
+    tag = fresh_name("srt")
+    perm = z3.Function(tag + "_perm", z3.IntSort(), z3.IntSort())
+    inv = z3.Function(tag + "_inv", z3.IntSort(), z3.IntSort())
+    i = z3.Int(tag + "_i")
+    j = z3.Int(tag + "_j")
+    ip.assume(z3.ForAll([i], z3.Implies(z3.And(0 <= i, i < n), z3.And(0 <= perm(i), perm(i) < n, inv(perm(i)) == i)), patterns=[perm(i)]))
+    ip.assume(z3.ForAll([j], z3.Implies(z3.And(0 <= j, j < n), z3.And(0 <= inv(j), inv(j) < n, perm(inv(j)) == j)), patterns=[inv(j)]))
+
+    def keyof(t):
+        old = ip.pure
+        ip.pure += 1
+        try:
+            return ip.call_v(key, [get(t)], {}) if key is not None else get(t)
+        finally:
+            ip.pure = old
+
+    ka, kb = keyof(perm(i)), keyof(perm(j))
+    le = ip.order("<=", ka, kb)
+    eqk = ip.eq(ka, kb)
+    ok = b_and(le, b_implies(eqk, mk(perm(i) < perm(j), "bool")))
+    okt = to_bool_term(ok) if not isinstance(ok, bool) else z3.BoolVal(ok)
+    ip.assume(z3.ForAll([i, j], z3.Implies(z3.And(0 <= i, i < j, j < n), okt), patterns=[z3.MultiPattern(perm(i), perm(j))]))
+    ip.call_log.setdefault("builtins.sorted", []).append(
+        I.NS(
+            args=I.NS(iterable=xs),
+            result=None,
+            n=Sym(n, "int"),
+            perm=I.PyFn("perm", lambda ip_, a, k: Sym(perm(term(a[0], "int")), "int")),
+            inv=I.PyFn("inv", lambda ip_, a, k: Sym(inv(term(a[0], "int")), "int")),
+        )
+    )
+    return SeqV(n, lambda t: get(perm(t)), "list")
 
 
 def sym_sorted(ip, items, key, rev=False):
@@ -737,6 +795,14 @@ def method(ip, obj, name):
                 ip_.assume(z3.ForAll([j2], z3.Implies(z3.And(j2 >= 0, j2 < r), z3.Not(to_bool_term(ip_.eq(obj.get(j2), x))))))
                 return Sym(r, "int")
             return fn(index)
+        if name == "sort":
+            def sort(ip_, a, k, obj=obj):
+                # in place: the object changes, as for `x[:] = sorted(x, key=...)`
+                frozen = SeqV(obj.length, obj.get, obj.kind, obj.name)
+                new = seq_sorted(ip_, frozen, k.get("key"), k.get("reverse", False))
+                obj.length, obj.get = new.length, new.get
+                return None
+            return fn(sort)
         if name == "append":
             raise EngineError("append on a symbolic sequence must go through a local name (handled in e_Call)")
     if isinstance(obj, Fraction) or isinstance(obj, int) and not isinstance(obj, bool):
